@@ -355,7 +355,7 @@ func CamelID(id string) string {
 }
 
 // Positions in which a shape is placed.
-var Positions = []string{"def", "reqprop", "optprop", "items", "mapval", "allof", "refprop", "nested"}
+var Positions = []string{"def", "reqprop", "optprop", "items", "mapval", "allof", "refprop", "aliasprop", "nested"}
 
 // Placed is one (atom, position) definition inside a spec.
 type Placed struct {
@@ -411,6 +411,12 @@ func Place(a *SchemaAtom, pos string) (Placed, map[string]J) {
 	case "refprop":
 		defs[prefix+"Alias"] = s
 		d = obj([]string{"p"}, J{"p": ref(prefix + "Alias"), "o": ref(prefix + "Alias")})
+	case "aliasprop":
+		// the shape behind a chain of alias definitions (definitions that are nothing but a $ref)
+		defs[prefix+"Target"] = s
+		defs[prefix+"Alias"] = ref(prefix + "Target")
+		defs[prefix+"Alias2"] = ref(prefix + "Alias")
+		d = obj([]string{"p"}, J{"p": ref(prefix + "Alias"), "o": ref(prefix + "Alias"), "c": ref(prefix + "Alias2")})
 	case "nested":
 		d = obj(nil, J{"o": obj([]string{"p"}, J{"p": s})})
 	default:
